@@ -285,9 +285,36 @@ func TestCheck(t *testing.T) {
 			r.Sample(map[string]any{"kind": "lockstep-game", "start": p.FEN(), "tt_bytes": w.TTBytes, "soft_node_limits": w.SoftNodes[:8]})
 		}
 	})
+	// the hard budget while pondering: limits are ignored until ponderhit, but the node counter
+	// (and the nodes reported in info lines) must never pass the budget
+	np := r.N(600, 6000)
+	ev.Parallel(np, func(wk, i int) {
+		rng := r.RNG("c08-ponder", i)
+		root, _ := strace.RandomRoot(rng, []string{"fresh", "played", "dense"}[rng.IntN(3)])
+		if root.Final() {
+			return
+		}
+		b, err := root.Board()
+		if err != nil {
+			return
+		}
+		q := strace.Request{Nodes: 1 + rng.IntN(3000), Ponder: "hit", PonderUs: []int{0, 0, 50, 500, 3000}[rng.IntN(5)]}
+		s := search.New(1 << 20)
+		res := strace.Exec(s, b, q)
+		r.Eval(1)
+		r.Count("ponder_searches_with_node_budget", 1)
+		top := res.Nodes
+		for _, in := range res.Infos {
+			top = max(top, in.Nodes)
+		}
+		if top > q.Nodes {
+			r.Violation("C08:hard-node-budget-exceeded-while-pondering", map[string]any{"kind": "ponder-budget", "root": root.Pos.FEN(), "request": q},
+				fmt.Sprintf("root %s: hard budget %d, ponderhit after %d us: counted / reported nodes reach %d", root.Pos.FEN(), q.Nodes, q.PonderUs, top))
+		}
+	})
 	runtime.GOMAXPROCS(old)
 	close(stopBurn)
 	bw.Wait()
 	r.Count("concurrent_games_goroutines", int64(ev.Workers()))
-	r.Finish("lockstep_moves", "games_completed", "replays_with_trailing_abort_line", "nodes_searched", "games_without_counters_option", "games_with_unsearched_replies", "tiny_soft_limit_already_exceeded_after_depth_0")
+	r.Finish("lockstep_moves", "games_completed", "replays_with_trailing_abort_line", "nodes_searched", "games_without_counters_option", "games_with_unsearched_replies", "tiny_soft_limit_already_exceeded_after_depth_0", "ponder_searches_with_node_budget")
 }
